@@ -851,6 +851,11 @@ class C03(Prop):
                     return (f"{det}: negation changed {k}", "negation")
             if det != "fkm" and not case.get("fl"):
                 a, b = case["a"], case["b"]
+                mx = max(abs(x) for x in sig)
+                if 2 * a * mx + abs(b) >= 2 ** 52:
+                    a = 1               # near-tie signals reach 2**51: a larger factor would leave the exactly representable integers
+                if 2 * a * mx + abs(b) >= 2 ** 52:
+                    b = 0
                 aff = run_impl(det, [[a * x + b for x in sig]])
                 for k in ("from", "to", "residuals"):
                     if [a * x + b for x in base[k]] != aff[k]:
